@@ -133,6 +133,10 @@ type handleWorld struct {
 	step    int
 	prop    string
 	multiOK bool
+	// quiet: do not probe the SUT handles' offsets with Seek(0, SeekCurrent) after every step (the probe is
+	// itself a call on the handle and can reset per-handle state: an observer effect); offsets then show
+	// through the data of later reads and are compared once, at the end
+	quiet bool
 }
 
 func (w *handleWorld) fileBytes() ([]byte, error, []byte, error) {
@@ -282,7 +286,7 @@ func (w *handleWorld) do(o hOp) {
 func (w *handleWorld) compareState(sig string, o hOp) {
 	t := w.t
 	for _, h := range w.hs {
-		if h.closed || h.isDir {
+		if h.closed || h.isDir || (w.quiet && o.Kind != "final") {
 			continue
 		}
 		so, serr := hackpadfs.SeekFile(h.sut, 0, io.SeekCurrent)
@@ -417,6 +421,14 @@ func runC02(t *T) {
 	kinds := []string{"Write", "Read", "ReadAt", "WriteAt", "Seek", "Truncate", "Stat", "Close"}
 	weights := []int{6, 6, 4, 4, 5, 3, 2, 1}
 	n := 1 + c.Draw(24)
+	w.quiet = c.Chance(1, 2)
+	if w.quiet {
+		defer func() {
+			if !t.Failed() {
+				w.compareState("C02:final", hOp{Kind: "final"})
+			}
+		}()
+	}
 	for i := 0; i < n; i++ {
 		var size int64
 		if info, err := hackpadfs.Stat(ref, w.path); err == nil {
